@@ -25,8 +25,10 @@ type baseCockpit struct {
 	spinner *spinner.Spinner
 	// "Finished ..." lines waiting to be printed by the spinner's redraw goroutine
 	finished []string
-	charSet  int
-	closeCh  chan bool
+	// closed once the spinner has been stopped and the last lines are out
+	stopped chan struct{}
+	charSet int
+	closeCh chan bool
 }
 
 type cockpitOutputDecorator struct {
@@ -65,6 +67,10 @@ func (b *baseCockpit) add(t *task.Task) {
 		b.spinner = b.newSpinner()
 	}
 	s := b.spinner
+	if first {
+		b.stopped = make(chan struct{})
+	}
+	stopped := b.stopped
 	b.mu.Unlock()
 
 	if !first {
@@ -75,6 +81,7 @@ func (b *baseCockpit) add(t *task.Task) {
 	// hook takes b.mu, and Start takes the spinner's lock
 	s.Start()
 	go func() {
+		defer close(stopped)
 		<-b.closeCh
 		b.mu.Lock()
 		s.FinalMSG = strings.Join(b.finished, "")
@@ -82,6 +89,18 @@ func (b *baseCockpit) add(t *task.Task) {
 		b.mu.Unlock()
 		s.Stop()
 	}()
+}
+
+// wait blocks until the indicator has been stopped and the last "Finished" lines are printed.
+// It returns at once if no task was ever shown.
+func (b *baseCockpit) wait() {
+	b.mu.Lock()
+	stopped := b.stopped
+	b.mu.Unlock()
+
+	if stopped != nil {
+		<-stopped
+	}
 }
 
 func (b *baseCockpit) remove(t *task.Task) {
